@@ -41,6 +41,13 @@ def histories(rng, tier):
                 h.append('bits w mode=set pix=%s bits=%s' % (ptxt, ','.join(map(str, bitlist()))))
             elif r < 0.65:
                 h.append('bits w mode=clear pix=%s bits=%s' % (ptxt, ','.join(map(str, bitlist()))))
+            elif r < 0.72:
+                h.append(gen.geom_line(rng, c, mode=rng.choice(['ior', 'realize'])))
+            elif r < 0.76:
+                h += [gen.geom_line(rng, c, mode=rng.choice(['getmap', 'getmaplike']), r='gm'), 'info gm', 'state gm',
+                      'valid gm']
+                for b in (0, 7, 8, 15, 16, 23, 24):
+                    h.append('chk gm pix=%s bits=%d' % (','.join(map(str, sorted(touched)[:8])) or '0', b))
             elif r < 0.8:
                 h.append(gen.upd_line(rng, c, focus=focus))
             else:
